@@ -27,6 +27,21 @@ Theorem C10_tick_inv : forall g env t st,
        crdd_at st' i = node_val nd t (delivered g env st i) (map crdd (ns st'))).
 Proof. exact tick_inv. Qed.
 
+(* closed form: every node's RDD after the tick is a function ([denot]) of the batches the sources
+   delivered in THIS interval only -- nothing leaks from earlier intervals, nothing is skipped *)
+Theorem C10_tick_denot : forall g env t st,
+  wf g -> length (ns st) = length g -> (forall i s, nth_error (ns st) i = Some s -> ctime s < t) ->
+  exists st', tick g env t st = Some st' /\
+    forall i, (i < length g)%nat -> crdd_at st' i = nth i (denot g t (delivered g env st)) RNone.
+Proof. exact tick_denot. Qed.
+
+(* a callback whose timestamp is not later than what every node already processed is not a new
+   interval: no get(), no function call, no state change *)
+Theorem C10_tick_stutter : forall g env t st,
+  length (ns st) = length g -> (forall i s, nth_error (ns st) i = Some s -> t <= ctime s) ->
+  tick g env t st = Some st.
+Proof. exact tick_stutter. Qed.
+
 (* pop_once + fire_once: in one callback every source calls get() exactly once and no other node
    does, every transformation/action function is called exactly once, with the tick time and with
    the RDDs its parents hold in this interval -- however many derived nodes reach a node *)
